@@ -242,34 +242,8 @@ fn vis_str<'tcx>(tcx: TyCtxt<'tcx>, did: DefId) -> String {
     }
 }
 
-struct Cb;
-impl rustc_driver::Callbacks for Cb {
-    fn after_analysis<'tcx>(
-        &mut self,
-        _c: &rustc_interface::interface::Compiler,
-        tcx: TyCtxt<'tcx>,
-    ) -> Compilation {
-        let krate = tcx.crate_name(rustc_span::def_id::LOCAL_CRATE).to_string();
-        let dir = match std::env::var("SV_FACTS_DIR") {
-            Ok(d) => d,
-            Err(_) => return Compilation::Continue,
-        };
-        let mut out = String::new();
-        let mut n = 0;
-        writeln!(out, "{{\"k\":\"crate\",\"name\":{}}}", q(&krate)).unwrap();
-        for ldid in tcx.mir_keys(()) {
-            let did = ldid.to_def_id();
-            let kind = tcx.def_kind(did);
-            let body = match kind {
-                DefKind::Fn | DefKind::AssocFn | DefKind::Closure | DefKind::Ctor(..) => tcx.optimized_mir(did),
-                DefKind::Const { .. }
-                | DefKind::AssocConst { .. }
-                | DefKind::AnonConst
-                | DefKind::InlineConst
-                | DefKind::Static { .. } => tcx.mir_for_ctfe(did),
-                _ => continue,
-            };
-            n += 1;
+
+fn dump_body<'tcx>(tcx: TyCtxt<'tcx>, did: DefId, kind: DefKind, body: &mir::Body<'tcx>, suffix: &str, out: &mut String) {
             let env = TypingEnv::post_analysis(tcx, did);
             let is_fn = matches!(kind, DefKind::Fn | DefKind::AssocFn);
             let track = is_fn
@@ -311,8 +285,8 @@ impl rustc_driver::Callbacks for Cb {
             write!(
                 out,
                 "{{\"k\":\"fn\",\"path\":{},\"name\":{},\"kind\":\"{}\",\"argc\":{},\"vis\":{},\"tc\":{},\"loc\":{},\"exp\":{},\"impl_exp\":{},\"self_ty\":{},\"trait\":{},\"generics\":[{}],\"locals\":[",
-                q(&raw_path(tcx, did)),
-                q(&pretty(tcx, did)),
+                q(&format!("{}{}", raw_path(tcx, did), suffix)),
+                q(&format!("{}{}", pretty(tcx, did), suffix)),
                 match kind {
                     DefKind::Fn => "Fn",
                     DefKind::AssocFn => "AssocFn",
@@ -348,7 +322,7 @@ impl rustc_driver::Callbacks for Cb {
                         out.push(',');
                     }
                     first = false;
-                    write!(out, "[{},{}]", q(v.name.as_str()), place(p)).unwrap();
+                    write!(*out, "[{},{}]", q(v.name.as_str()), place(p)).unwrap();
                 }
             }
             out.push_str("],\"blocks\":[");
@@ -356,7 +330,7 @@ impl rustc_driver::Callbacks for Cb {
                 if bi > 0 {
                     out.push(',');
                 }
-                write!(out, "{{\"c\":{},\"s\":[", data.is_cleanup).unwrap();
+                write!(*out, "{{\"c\":{},\"s\":[", data.is_cleanup).unwrap();
                 let mut first = true;
                 for st in &data.statements {
                     let s = match &st.kind {
@@ -443,27 +417,64 @@ impl rustc_driver::Callbacks for Cb {
                         .unwrap();
                     }
                     TerminatorKind::Goto { target } => {
-                        write!(out, "{{\"goto\":{}}}", target.as_u32()).unwrap();
+                        write!(*out, "{{\"goto\":{}}}", target.as_u32()).unwrap();
                     }
                     TerminatorKind::Return => out.push_str("{\"return\":true}"),
                     TerminatorKind::Unreachable => out.push_str("{\"unreachable\":true}"),
                     TerminatorKind::UnwindResume => out.push_str("{\"resume\":true}"),
                     TerminatorKind::Drop { place: p, target, .. } => {
-                        write!(out, "{{\"drop\":{},\"target\":{}}}", place(p), target.as_u32()).unwrap();
+                        write!(*out, "{{\"drop\":{},\"target\":{}}}", place(p), target.as_u32()).unwrap();
                     }
                     TerminatorKind::FalseEdge { real_target, .. } => {
-                        write!(out, "{{\"goto\":{}}}", real_target.as_u32()).unwrap();
+                        write!(*out, "{{\"goto\":{}}}", real_target.as_u32()).unwrap();
                     }
                     TerminatorKind::FalseUnwind { real_target, .. } => {
-                        write!(out, "{{\"goto\":{}}}", real_target.as_u32()).unwrap();
+                        write!(*out, "{{\"goto\":{}}}", real_target.as_u32()).unwrap();
                     }
                     other => {
-                        write!(out, "{{\"other\":{},\"at\":{}}}", q(&format!("{:?}", other)), at).unwrap();
+                        write!(*out, "{{\"other\":{},\"at\":{}}}", q(&format!("{:?}", other)), at).unwrap();
                     }
                 }
                 out.push('}');
             }
             out.push_str("]}\n");
+}
+
+struct Cb;
+impl rustc_driver::Callbacks for Cb {
+    fn after_analysis<'tcx>(
+        &mut self,
+        _c: &rustc_interface::interface::Compiler,
+        tcx: TyCtxt<'tcx>,
+    ) -> Compilation {
+        let krate = tcx.crate_name(rustc_span::def_id::LOCAL_CRATE).to_string();
+        let dir = match std::env::var("SV_FACTS_DIR") {
+            Ok(d) => d,
+            Err(_) => return Compilation::Continue,
+        };
+        let mut out = String::new();
+        let mut n = 0;
+        writeln!(out, "{{\"k\":\"crate\",\"name\":{}}}", q(&krate)).unwrap();
+        for ldid in tcx.mir_keys(()) {
+            let did = ldid.to_def_id();
+            let kind = tcx.def_kind(did);
+            let body = match kind {
+                DefKind::Fn | DefKind::AssocFn | DefKind::Closure | DefKind::Ctor(..) => tcx.optimized_mir(did),
+                DefKind::Const { .. }
+                | DefKind::AssocConst { .. }
+                | DefKind::AnonConst
+                | DefKind::InlineConst
+                | DefKind::Static { .. } => tcx.mir_for_ctfe(did),
+                _ => continue,
+            };
+            n += 1;
+            dump_body(tcx, did, kind, body, "", &mut out);
+            if matches!(kind, DefKind::Fn | DefKind::AssocFn | DefKind::Closure) {
+                for (pi, pb) in tcx.promoted_mir(did).iter_enumerated() {
+                    n += 1;
+                    dump_body(tcx, did, kind, pb, &format!("#promoted{}", pi.as_u32()), &mut out);
+                }
+            }
         }
         // ADTs
         for id in tcx.hir_free_items() {
